@@ -505,38 +505,31 @@ impl Range {
     Return the lowest [Version] that can possibly match the given range.
     */
     pub fn min_version(&self) -> Option<Version> {
-        if let Some(min_bound) = self.0.iter().map(|range| &range.lower).min() {
-            let min_bound = min_bound.as_ref();
-            match min_bound {
-                Bound::Lower(pred) => match pred {
-                    Predicate::Including(v) => Some(v.clone()),
-                    Predicate::Excluding(v) => {
-                        let mut v = v.clone();
+        // The lowest version of each alternative is one of at most two
+        // candidates just above its lower bound; alternatives that admit
+        // neither of them admit nothing at all.
+        self.0
+            .iter()
+            .filter_map(|set| {
+                let candidates = match set.lower.as_ref() {
+                    Bound::Lower(Predicate::Including(v)) => vec![v.clone()],
+                    Bound::Lower(Predicate::Excluding(v)) => {
+                        let mut next = v.clone();
                         if v.is_prerelease() {
-                            v.pre_release.push(Identifier::Numeric(0))
+                            next.pre_release.push(Identifier::Numeric(0));
+                            vec![next]
                         } else {
-                            v.patch += 1;
+                            next.patch += 1;
+                            let mut first_pre = next.clone();
+                            first_pre.pre_release.push(Identifier::Numeric(0));
+                            vec![first_pre, next]
                         }
-                        Some(v)
                     }
-                    Predicate::Unbounded => {
-                        let mut zero = Version::from((0, 0, 0));
-                        if self.satisfies(&zero) {
-                            return Some(zero);
-                        }
-
-                        zero.pre_release.push(Identifier::Numeric(0));
-                        if self.satisfies(&zero) {
-                            return Some(zero);
-                        }
-                        None
-                    }
-                },
-                Bound::Upper(_) => None,
-            }
-        } else {
-            None
-        }
+                    _ => vec![Version::from((0, 0, 0, 0)), Version::from((0, 0, 0))],
+                };
+                candidates.into_iter().find(|v| set.satisfies(v))
+            })
+            .min()
     }
 }
 
